@@ -1043,6 +1043,7 @@ def c09_precedence(ctx: Ctx) -> List[Violation]:
     out: List[Violation] = []
     g1 = {e[2]: e for e in ctx.events if e[0] == "I"}
     g2 = {e[2]: e for e in ctx.events if e[0] == "J"}
+    g2b = {e[2]: e for e in ctx.events if e[0] == "L"}  # G2's second instruction of the step (generated after its first)
     per_vehicle: Dict[str, list] = {}
     for r in ctx.reports:
         if r.report_type.name == "INSTRUCTION":
@@ -1056,7 +1057,7 @@ def c09_precedence(ctx: Ctx) -> List[Violation]:
         if len(got) > 1:
             out.append(Violation("C09", "two_instructions_one_vehicle", (), f"vehicle {vid}: {got} took effect in one step"))
             continue
-        stack = tuple(x for x in (g2.get(vid), g1.get(vid)) if x is not None)
+        stack = tuple(x for x in (g2b.get(vid), g2.get(vid), g1.get(vid)) if x is not None)
         from .worlds import mk_instruction
 
         prev = tuple(mk_instruction(("I",) + e[1:]) for e in stack) or None
@@ -1064,6 +1065,10 @@ def c09_precedence(ctx: Ctx) -> List[Violation]:
         ctx.env.reporter.take()
         if drv is not None:
             want, who = drv.__class__.__name__, "driver"
+        elif vid in g2b:
+            want, who = g2b[vid][1] + "Instruction", "G2_second"
+            if vid in g2:
+                ctx.cov["c09:one_generator_two_instructions_same_vehicle"] += 1
         elif vid in g2:
             want, who = g2[vid][1] + "Instruction", "G2"
         elif vid in g1:
